@@ -424,6 +424,10 @@ class HierDictDocument(DictDocument):
                 cls, = ti.values()
                 ti = getattr(cls, '_type_info', {})
 
+            # what was wrapped can be null as well.
+            if inst is None:
+                return None
+
         # transform the results into a dict:
         if cls.Attributes.max_occurs > 1:
             if inst is not None:
